@@ -426,6 +426,12 @@ pub fn run_main(props: &[Property], id: &str, tier: Tier, seed: u64) -> i32 {
         })
         .collect();
     let all_exh = !merged.is_empty() && merged.values().all(|m| m.exhaustive);
+    // statistics of the libFuzzer campaign the check script ran before us (thorough tier only)
+    let fuzz_path = format!("{}/run/fuzz-{}.json", vdir, id);
+    let fuzz: Value = std::fs::read_to_string(&fuzz_path).ok().and_then(|s| serde_json::from_str(&s).ok()).unwrap_or(Value::Null);
+    let _ = std::fs::remove_file(&fuzz_path);
+    let fuzz_execs = fuzz.get("executions").and_then(|v| v.as_u64()).unwrap_or(0);
+    let evaluations = evaluations + fuzz_execs;
     let ev = json!({
         "property_id": id,
         "tier": tier.name(),
@@ -441,6 +447,7 @@ pub fn run_main(props: &[Property], id: &str, tier: Tier, seed: u64) -> i32 {
             "regression_replays": regress_run,
             "known_findings_reported": known_lines.len(),
             "inconclusive": inconclusive,
+            "libfuzzer": fuzz,
         },
         "assumptions": prop.assumptions,
         "wall_s": t0.elapsed().as_secs_f64(),
